@@ -27,6 +27,12 @@ class NotEvaluable(AnalysisError):
     pass
 
 
+class UnknownField(NotEvaluable):
+    def __init__(self, name: str):
+        super().__init__(f'field `{name}` not in valuation')
+        self.name = name
+
+
 _PURE_METHODS = {'startswith', 'endswith', 'split', 'rsplit', 'strip',
                  'lstrip', 'rstrip', 'lower', 'upper', 'find', 'index',
                  'count', 'replace', 'partition', 'rpartition', 'isdigit',
@@ -164,7 +170,7 @@ class Evaluator:
                     if tag in self.env or tag in self.val:
                         return self.lookup(tag, e)
                     if root == 'self':
-                        raise NotEvaluable(f'field `{d}` not in valuation')
+                        raise UnknownField(d)
                     return Obj(tag)
                 return self.lookup(d, e)
             base = self.ev(e.value)
@@ -205,8 +211,15 @@ class Evaluator:
         if isinstance(e, ast.IfExp):
             return self.ev(e.body) if self.truth(self.ev(e.test)) \
                 else self.ev(e.orelse)
-        if isinstance(e, (ast.Tuple, ast.List)):
+        if isinstance(e, ast.Tuple):
             return tuple(self.ev(x) for x in e.elts)
+        if isinstance(e, ast.List):
+            # a fresh local list: mutable (append/pop are applied and traced)
+            return [self.ev(x) for x in e.elts]
+        if isinstance(e, (ast.Yield, ast.YieldFrom)):
+            v = self.ev(e.value) if e.value is not None else None
+            self.calls.append(('<yield>', (v,)))
+            return None
         if isinstance(e, ast.Set):
             vals = [self.ev(x) for x in e.elts]
             try:
@@ -261,7 +274,7 @@ class Evaluator:
                                      not isinstance(x, bool)) for x in parts):
                     return base[slice(*parts)]
                 return Unknown(key)
-            if isinstance(base, (tuple, bytes, str)) and \
+            if isinstance(base, (tuple, bytes, str, list)) and \
                     not isinstance(e.slice, ast.Slice):
                 i = self.ev(e.slice)
                 if isinstance(i, int):
@@ -552,6 +565,11 @@ class Evaluator:
                 nm = dotted(e)
                 if nm in self.env and isinstance(self.env[nm], _Raise):
                     raise self.env[nm]
+                if nm is None:
+                    v = self.ev(e)
+                    if isinstance(v, _Raise):
+                        raise v
+                    raise NotEvaluable('raise ' + unparse(e))
             raise _Raise(nm.split('.')[-1], st, args)
         if isinstance(st, ast.Pass):
             return
@@ -701,3 +719,34 @@ def int_classes(cuts: Iterable[int], lo: int = 0, hi: int = 255) -> List[int]:
             if lo <= c + d <= hi:
                 pts.add(c + d)
     return sorted(pts)
+
+
+def evaluate_total(idx: Index, mod: ModuleInfo, stmts, valuation,
+                   init_env=None, on_call=None, atoms=None,
+                   domain=(False, True), max_unknown: int = 3):
+    """Like evaluate(), but a field the rule did not give a value to (for
+    instance one introduced by a later edit of the analysed code) is
+    universally quantified over `domain`: returns the list of outcomes for
+    every completion.  Mutable values in `valuation` / `init_env` are
+    re-created by calling them if they are callables."""
+    def fresh(d):
+        return {k: (v() if callable(v) and not isinstance(v, (Obj, Unknown))
+                    else v) for k, v in (d or {}).items()}
+    outs = []
+
+    def go(extra, depth):
+        val = fresh(valuation)
+        val.update(extra)
+        try:
+            outs.append((dict(extra),
+                         evaluate(idx, mod, stmts, val, fresh(init_env),
+                                  on_call, atoms)))
+        except UnknownField as exc:
+            if depth >= max_unknown or exc.name in extra:
+                raise
+            for v in domain:
+                e2 = dict(extra)
+                e2[exc.name] = v
+                go(e2, depth + 1)
+    go({}, 0)
+    return outs
